@@ -354,3 +354,24 @@ Example C09_history_binop_ex :
   binop (@pair nat nat) true (run_history [MAppend 3; MReverse; MPop 0; MSet 0 9; MInsert 1 5] [1; 2]) (Seq (run_history [MPopLast] [7; 8]))
     = Ok (PList [(9, 7); (5, 7); (1, 7)]).
 Proof. split; reflexivity. Qed.
+
+(* ================================================================= keyword options
+   A method's keyword options (unit, order, flip, twist, shortest, dest/start, theta ...) are an extra argument o of the per-value
+   function.  The sequence forms apply ONE option value to every element: the M-valued result is map (g o), and interpolation over a
+   vector of s with options o is the list of the single-valued calls made with the same o.  props/C09.py sweeps the options of
+   every vectorised method (read from the signatures) against these statements. *)
+Theorem C09_accessors_options : forall O A C (g : O -> A -> C) (o : O) l,
+  to_list (acc_branch1 (g o) l) = Some (map (g o) l) /\
+  to_list (acc_map_unwrap (g o) l) = Some (map (g o) l) /\
+  to_list (acc_map (g o) l) = Some (map (g o) l).
+Proof. intros. apply C09_accessors_map. Qed.
+Print Assumptions C09_accessors_options.
+
+Theorem C09_interp_options : forall O A S C (f : O -> A -> S -> C) (o : O) a l s s0, s <> [] ->
+  pose_interp (f o) [a] s = Ok (map (fun x => f o a x) s) /\
+  pose_interp (f o) l [s0] = Ok (map (fun x => f o x s0) l).
+Proof. intros. split; [now apply C09_interp_vector_s | apply C09_interp_scalar_s]. Qed.
+Print Assumptions C09_interp_options.
+Example C09_interp_options_ex :
+  pose_interp ((fun (shortest : bool) (q : nat) (s : nat) => (shortest, q, s)) true) [5] [1; 2] = Ok [(true, 5, 1); (true, 5, 2)].
+Proof. reflexivity. Qed.
